@@ -460,6 +460,27 @@ def long_record(r, n, amb=0):
     return bytes(s)
 LONG_LENGTHS = [65535, 65536, 65537, 70000, 131072, 131075, 200000]
 
+def fa_record_bytes(i, seq):
+    """bytes of record i in the harness' single-line FASTA container (`>r<i>[ some description]\\n<seq>\\n`)"""
+    return 2 + len(str(i)) + (17 if i % 3 == 1 else 0) + 1 + len(seq) + 1
+
+def block_aligned_records(r, delta, block=8192, blocks=(1, 2)):
+    """records whose single-line FASTA file has a record header starting `delta` bytes after a multiple of the reader's
+    block size (for each multiple in `blocks`)"""
+    recs = []; off = 0
+    for b in blocks:
+        target = b * block + delta
+        while True:
+            i = len(recs); L = 80 + r.below(200)
+            if off + fa_record_bytes(i, b"x" * L) + 40 > target:        # the next header must land on the target
+                L = target - off - fa_record_bytes(i, b"")
+                if L < 1: raise ValueError("cannot align")
+                recs.append(bytes(r.choices(NUC, k=L))); off = target; break
+            recs.append(bytes(r.choices(NUC, k=L))); off += fa_record_bytes(i, recs[-1])
+    for _ in range(2 + r.below(4)):
+        recs.append(bytes(r.choices(NUC, k=20 + r.below(100))))
+    return recs
+
 def many_records(r, n, lo=1, hi=12):
     """hundreds to thousands of short, pairwise different records: a writer that formats or flushes in blocks,
     or derives a row position from completion order, shows only on batches larger than its block size"""
@@ -491,6 +512,11 @@ def gen_C05(r, tier):
         base = "ofile %d 1 %d 2c %%d %%d %%s %%s 60 %s" % (k, r.below(2), hxlist(recs))
         cases.append(base % (pick_threads(r), 4294967296, "mmap", "fa"))
         cases.append(base % (pick_threads(r), r.pick([1, 1000, 4294967296]), "batch", r.pick(["fa", "fagz"])))
+    for delta in (0, -1, 1):
+        recs = block_aligned_records(r, delta)
+        base = "ofile 2 1 %d 2c %%d %%d %%s %%s 60 %s" % (r.below(2), hxlist(recs))
+        cases.append(base % (pick_threads(r), 4294967296, "mmap", "fa"))
+        cases.append(base % (pick_threads(r), 1000, "batch", "faw"))
     for cont in ALIGNED:
         recs = [bytes(r.choices(NUC, k=1 + r.below(300))) for _ in range(6 + r.below(60))]
         base = "ofile 2 1 %d 2c %%d %%d %%s %%s 60 %s" % (r.below(2), hxlist(recs))
@@ -675,13 +701,20 @@ def gen_C11_files(r, n):
         if r.below(5) == 0 and recs:
             i = r.below(len(recs)); recs[i] = recs[i] + bytes([r.pick(FILE_AMBIG)])
         cases.append("cgrfile %d %d %d %s %s" % (S, pick_threads(r), r.pick([1, 50, 1000, 4294967296]), cont, hxlist(recs)))
+    # refusals: one worker / several, the offending byte at the start, in the middle and at the end of a record that is
+    # first, in the middle or last; the output file of a refused run must not hold anything of the rejected record
+    for _ in range(12 if n <= 400 else 80):
+        recs = [bytes(r.choices(NUC10, k=1 + r.below(40))) for _ in range(1 + r.below(6))]
+        i = r.below(len(recs)); pos = r.pick([0, len(recs[i]) // 2, len(recs[i])])
+        recs[i] = recs[i][:pos] + bytes([r.pick(FILE_AMBIG)]) + recs[i][pos:]
+        cases.append("cgrfile %d %d %d fa %s" % (r.pick([1, 16, 1000]), r.pick([1, 1, 2, 8]), r.pick([1, 50, 4294967296]), hxlist(recs)))
     for nrec in ([300, 700, 1500] if n <= 400 else [300, 700, 1500, 3000, 5000, 2000]):
         cases.append("cgrfile 16 %d %d fa %s" % (r.pick([2, 3, 8, 16]), r.pick([4294967296, 4294967296, 2000]), hxlist(many_records(r, nrec, 0, 8))))
     return cases
 
 def to_spec_cgrfile(case, out):
     p = case.split(" ")
-    if p[0] != "cgrfile" or out == "ERR" or out.startswith(("PANIC", "CRASH", "NOT-RUN", "MODEL")) or not out: return out
+    if p[0] != "cgrfile" or out.startswith(("ERR", "PANIC", "CRASH", "NOT-RUN", "MODEL")) or not out: return out
     n = 52 - bitlen(int(p[1]))
     rows = []
     cnt, out = out.split("#", 1) if "#" in out else ("?", out)
@@ -1029,6 +1062,11 @@ def gen_C17(r, tier):
 def gen_C14(r, tier):
     n = {"quick": 260, "thorough": 4000}[tier]
     cases = []
+    # files larger than the reader's 8 KiB block with a record header exactly on, one before and one after a block
+    # boundary: the sizing pre-pass and the record iterator must count the same records
+    for delta in (0, -1, 1, 0):
+        recs = block_aligned_records(r, delta)
+        cases.append("hooks ofile 2 1 %d 2c %d 4294967296 mmap fa 60 %s" % (r.below(2), r.pick([1, 2, 8]), hxlist(recs)))
     for _ in range(n):
         c = r.below(10)
         if c < 5:        # mapped writer: delimiters of length 0..5, header on/off, k 1..6 (7, 8 rarely)
@@ -1171,14 +1209,14 @@ PROPS = {
                 nontrivial=lambda c, o: bool(o) and not o.startswith(("PANIC", "CRASH", "NOT-RUN")) and any(x != "0" for x in o.split(",")),
                 assumptions=["(count as f64 / bin_size as f64).floor() equals integer division for count < 2^32, bin_size < 2^32 (modelled as N division; boundary multiplicities generated on purpose)"]),
     "C11": dict(gen=gen_C11, needs=["harness"], to_spec=lambda c, o: to_spec_cgrfile(c, to_spec_cgr(c, o)),
-                rule="record level: every byte value 0..255 alone and planted inside ACG?T (rejection clause, exhaustive), then seeded nucleotide strings over ACGTacgtUu of length 0..400 (thorough: some to 5000) with square sizes {1,2,3,16,1000,2^20,random}, one in five with a random byte planted; coordinates compared bit for bit with the Flocq binary64 model for every length and with the exact dyadic specification on the exactly representable prefix; non-trivial = at least one point or a rejection",
+                rule="record level: every byte value 0..255 alone and planted inside ACG?T (rejection clause, exhaustive), then seeded nucleotide strings over ACGTacgtUu of length 0..400 (thorough: some to 5000) with square sizes {1,2,3,16,1000,2^20,random}, one in five with a random byte planted; coordinates compared bit for bit with the Flocq binary64 model for every length and with the exact dyadic specification on the exactly representable prefix; file level: record lists through the file API (threads, limits, containers, hundreds of records) and refused inputs (offending byte at the start / middle / end of the first / a middle / the last record, 1..8 workers) whose output file must hold nothing of the rejected record; non-trivial = at least one point or a rejection",
                 assumptions=["Rust f64 + and / are IEEE-754 binary64 round-to-nearest-even (Flocq's b64_plus, b64_div)"]),
     "C12": dict(gen=gen_C12, needs=["harness", "cli"], extra=extra_C12, sample_filter=lambda c: not c.startswith("cli") and int(c.split(" ")[1]) <= 3 and len(c) < 800,
                 sample_limit={"quick": 40, "thorough": 150},
                 rule="record level: seeded records x k in 1..=7 x square sizes {1,2,3,9,16,1000,2^20,random} x raw/normalised; triples compared bit for bit (x, y with the Flocq model and the exact dyadic spec; f with the oligo model); each record also goes through the oligo vector: f must equal it and (x, y) must not depend on the record; non-trivial = some f non-zero",
                 assumptions=["Rust f64 arithmetic is IEEE-754 binary64 round-to-nearest-even"]),
     "C05": dict(gen=gen_C05, needs=["harness"], sample_limit={"quick": 32, "thorough": 96}, sample_maxlen=700, extra=extra_C05,
-                rule="file level: seeded record lists (0..40 records, empty records, all-ambiguous records) x k 1..5 x threads {default,1..16} x memory limit {1,50,100,1000,4 GiB} x header x delimiters {comma,tab,space,empty,'::',' | ',';;;;'} x writer {auto,mmap,batch} x container {FASTA, wrapped FASTA, CRLF FASTA, FASTQ, gzip, multi-member gzip, stored gzip}; every record list is run twice with different settings and the bytes must agree; records with 128m windows (values that are exact ties at the 7th decimal) through both writers; two-member gzip files whose second member starts 3, 2, 1 or 0 bytes before a 64 KiB boundary of the compressed file; files of 300..1500 (thorough: 5000) records; then controlled-scheduler replays on the mapped writer (W<=4 workers, R<=6 records, random schedule prefix + round-robin tail): logged TAKE/WRITE/EXIT trace, write offsets and file bytes must equal the Coq schedule model's; thorough enumerates every schedule word for (W,R) in {(2,2),(2,3),(3,3),(2,4)}; non-trivial = non-empty output",
+                rule="file level: seeded record lists (0..40 records, empty records, all-ambiguous records) x k 1..5 x threads {default,1..16} x memory limit {1,50,100,1000,4 GiB} x header x delimiters {comma,tab,space,empty,'::',' | ',';;;;'} x writer {auto,mmap,batch} x container {FASTA, wrapped FASTA, CRLF FASTA, FASTQ, gzip, multi-member gzip, stored gzip}; every record list is run twice with different settings and the bytes must agree; records with 128m windows (values that are exact ties at the 7th decimal) through both writers; two-member gzip files whose second member starts 3, 2, 1 or 0 bytes before a 64 KiB boundary of the compressed file; FASTA files with a record header exactly on, one before and one after a multiple of the reader's 8 KiB block; files of 300..1500 (thorough: 5000) records; then controlled-scheduler replays on the mapped writer (W<=4 workers, R<=6 records, random schedule prefix + round-robin tail): logged TAKE/WRITE/EXIT trace, write offsets and file bytes must equal the Coq schedule model's; thorough enumerates every schedule word for (W,R) in {(2,2),(2,3),(3,3),(2,4)}; non-trivial = non-empty output",
                 assumptions=["Mutex-protected reader and one write_at per row are atomic steps (below hook granularity is not modelled)",
                              "rayon's par_iter().map().collect() preserves order (batch writer)"]),
     "C06": dict(gen=gen_C06, needs=["harness"], sample_limit={"quick": 60, "thorough": 200}, sample_maxlen=1500,
@@ -1203,7 +1241,7 @@ PROPS = {
                              "code points U+0000..U+0003 are never generated (bytes 0..3 are unspecified)"]),
     "C14": dict(gen=gen_C14, needs=["harness"], sample_limit={"quick": 24, "thorough": 80}, sample_maxlen=600,
                 sample_filter=lambda c: not c.startswith("osched") or len(c) < 300,
-                rule="event log of the cfg(kmertools_verif) hooks while the library runs: mapped oligo writer with delimiters of length 0..5, header on/off, k 1..8, threads default/1..16, controlled and free schedules; coverage with bin size / count from 1 and a k-mer whose multiplicity lands at the edge of and far beyond the last bin; counter with k to 31 and ceilings giving many partitions; k-mer CGR; every logged unchecked index must satisfy idx < len, every write_at pos + len <= mapping size, the mapped writes must tile the file exactly with no NUL byte left, and the numbers of writes and indexings must equal the model's prediction; the harness is a debug build, so std's own get_unchecked precondition checks abort on a violation as well; non-trivial = at least one index or write logged",
+                rule="event log of the cfg(kmertools_verif) hooks while the library runs: mapped oligo writer with delimiters of length 0..5, header on/off, k 1..8, threads default/1..16, controlled and free schedules, and inputs larger than the reader's 8 KiB block with a record header exactly on / next to a block boundary (the sizing pre-pass against the record iterator); coverage with bin size / count from 1 and a k-mer whose multiplicity lands at the edge of and far beyond the last bin; counter with k to 31 and ceilings giving many partitions; k-mer CGR; every logged unchecked index must satisfy idx < len, every write_at pos + len <= mapping size, the mapped writes must tile the file exactly with no NUL byte left, and the numbers of writes and indexings must equal the model's prediction; the harness is a debug build, so std's own get_unchecked precondition checks abort on a violation as well; non-trivial = at least one index or write logged",
                 nontrivial=lambda c, o: o.startswith("oob=0") and not o.endswith("writes=0|index=0") or "|" in o and c.startswith("osched"),
                 assumptions=["only the hooked sites are observed: an unsafe site without a hook is outside this check (the translator's inventory of unsafe sites is future work)",
                              "what the hardware does on an out-of-bounds write is not modelled: the check shows there is none"]),
